@@ -9,26 +9,45 @@ Local Open Scope N_scope.
    - (position p of a live local function in the function vector after recalculate_ids, its body name), where p
      is also the index the id map assigns to the function's stored id - the index every reference to the
      function is rewritten to; and
-   - (number of live function imports before a live function import in the import vector, its custom name),
-     which is the import's function index by Wasm's index-space rule (C29_import_name_index). *)
+   - (number of function imports emitted before an emitted function import, the custom name of its entry) - the
+     imports are emitted in index order ([emitted_imports], since the repair of D02); this number is the import's
+     function index by Wasm's index-space rule (C29_import_name_index) and the index the id map assigns to the
+     import's function id (C29_names_follow_import_items). *)
 Theorem C29_names_follow_functions :
-  forall (c : ncase) (s0 s : nst) (h : list nop) (rets : list (option N)) (lf : list item) (mf : list (N * N)),
+  forall (c : ncase) (s0 s : nst) (h : list nop) (rets : list (option N)) (lf lg lm : list item) (mf : list (N * N)),
     init_state c = Ok s0 -> nrun_pref s0 h [] = (s, rets, false) ->
     index_space (m_f (ns_m s)) = Ok (lf, mf) ->
-    forall q t, In (q, t) (emit_fnames s lf) <->
+    forall q t, In (q, t) (emit_fnames s lf lg lm) <->
       (exists p it, nth_error lf p = Some it /\ is_local it = true /\ it_del it = false /\
                     lookup (ns_body s) (it_id it) = Some t /\ lookup mf (it_id it) = Some q /\ q = N.of_nat p)
-      \/ (exists k im, nth_error (m_imports (ns_m s)) k = Some im /\ i_sp im = 0 /\ i_del im = false /\
-                       lookup (ns_imp s) (N.of_nat k) = Some t /\ q = func_imports_before k (m_imports (ns_m s))).
+      \/ (exists j k, nth_error (emitted_imports (m_imports (ns_m s)) lf lg lm) j = Some k /\
+                      is_fn_entry (m_imports (ns_m s)) k = true /\ lookup (ns_imp s) k = Some t /\
+                      q = emitted_funcs_before (m_imports (ns_m s)) (emitted_imports (m_imports (ns_m s)) lf lg lm) j).
 Proof. exact names_follow_functions. Qed.
 Print Assumptions C29_names_follow_functions.
 
 Theorem C29_import_name_index :
-  forall m dead sites e k im,
-    encode m dead sites = Ok e -> nth_error (m_imports m) k = Some im -> i_sp im = 0 -> i_del im = false ->
-    designates e SF (func_imports_before k (m_imports m)) = Some (i_fp im).
+  forall m dead sites e lf mf lg mg lm mm j k,
+    encode m dead sites = Ok e ->
+    index_space (m_f m) = Ok (lf, mf) -> index_space (m_g m) = Ok (lg, mg) -> index_space (m_m m) = Ok (lm, mm) ->
+    nth_error (emitted_imports (m_imports m) lf lg lm) j = Some k -> is_fn_entry (m_imports m) k = true ->
+    designates e SF (emitted_funcs_before (m_imports m) (emitted_imports (m_imports m) lf lg lm) j)
+    = Some (snd (import_at (m_imports m) k)).
 Proof. exact import_name_index_is_wasm_index. Qed.
 Print Assumptions C29_import_name_index.
+
+(* the name of an imported function follows the function through every history: the import item at position p of the
+   recomputed function vector (p = the index its stored id is mapped to, i.e. what every reference to it is rewritten
+   to) gets the custom name of its import entry at index p - whatever the order of the import vector *)
+Theorem C29_names_follow_import_items :
+  forall (c : ncase) (s0 s : nst) (h : list nop) (rets : list (option N)) lf mf lg mg lm mm,
+    init_state c = Ok s0 -> nrun_pref s0 h [] = (s, rets, false) ->
+    index_space (m_f (ns_m s)) = Ok (lf, mf) -> index_space (m_g (ns_m s)) = Ok (lg, mg) ->
+    index_space (m_m (ns_m s)) = Ok (lm, mm) ->
+    forall p it k t, nth_error lf p = Some it -> it_imp it = Some k -> lookup (ns_imp s) k = Some t ->
+      In (N.of_nat p, t) (emit_fnames s lf lg lm) /\ lookup mf (it_id it) = Some (N.of_nat p).
+Proof. exact names_follow_import_items. Qed.
+Print Assumptions C29_names_follow_import_items.
 
 (* PARTIAL (D21): the local-name and the global-name map are written back with the indices of the input.  In a
    state whose id maps are the identity on the named ids, every entry sits at the position of the item whose
@@ -118,6 +137,16 @@ Example C29_former_D26_witness_holds :
   repaired (self_n [(0, 1); (0, 2)] [11] [] [] (only_names [] [] [])
              [NEdit (ImportToLocal 0 21) None; NEdit (Delete SF 0) None; NEdit (ImportToLocal 1 22) None])
            [(1, 1000002)].
+Proof. vm_compute. repeat split; reflexivity. Qed.
+
+(* former D02 shape (an import added before a conversion: the import vector holds the added import first, the index
+   space the converted one): the import section follows the index space and the custom names follow their imports *)
+Example C29_former_D02_shape_names_follow :
+  let c := self_n [] [11; 12] [] [] (only_names [(0, 1); (1, 2)] [] [])
+             [NEdit (AddImport SF 21) None; NEdit (LocalToImport 0 22) None; NImpSetName 0 7; NImpSetName 1 8] in
+  agree c = true /\ dom_of (verdict29 c) = true /\ holds_of (verdict29 c) = true
+  /\ option_map (fun en => (e_imports (fst en), n_funcs (snd en))) (no_enc c)
+     = Some ([(0, 22); (0, 21)], [(0, 8); (1, 7); (2, 2)]).
 Proof. vm_compute. repeat split; reflexivity. Qed.
 
 (* ---- non-vacuity ---- *)
